@@ -320,6 +320,567 @@ def _find_handler(run, f: Func, tags: str):
               where=f.loc(stmt), witness=flow.describe_path(cfg, path) if path else None)
 
 
+# ---------------------------------------------------------------------------
+# R2 (second reader) selection decided by evaluating the search over a finite model domain
+# ---------------------------------------------------------------------------
+
+class _Unreadable(Exception):
+    """The model evaluation met a construct it has no semantics for (-> UnknownIdiom, never a verdict)."""
+
+
+class _ModelRaise(Exception):
+    def __init__(self, cls, node):
+        Exception.__init__(self, cls.__name__)
+        self.cls, self.node = cls, node
+
+
+class _Return(Exception):
+    def __init__(self, value, node):
+        Exception.__init__(self)
+        self.value, self.node = value, node
+
+
+class _Break(Exception):
+    pass
+
+
+class _Continue(Exception):
+    pass
+
+
+# exceptions the evaluated builtins raise as part of their documented behaviour on model values
+_MODEL_EXC = (LookupError, ValueError, StopIteration)
+_KEYS_VIEW = type({}.keys())
+
+
+class _MSet:
+    """A set of model classes whose iteration order belongs to the evaluation: CPython orders a set of classes by their
+    id-hash, so every order is a possible run."""
+
+    def __init__(self, items, rank):
+        self.items = list(dict.fromkeys(items))
+        self.rank = rank
+
+    def _new(self, items):
+        return _MSet(items, self.rank)
+
+    def __iter__(self):
+        return iter(sorted(self.items, key=self.rank))
+
+    def __contains__(self, x):
+        return x in self.items
+
+    def __len__(self):
+        return len(self.items)
+
+    def __bool__(self):
+        return bool(self.items)
+
+    def __eq__(self, other):
+        return isinstance(other, _MSet) and set(self.items) == set(other.items)
+
+    __hash__ = None
+
+    @staticmethod
+    def _elems(x, strict):
+        if isinstance(x, (_MSet, set, frozenset, _KEYS_VIEW)):
+            return list(x)
+        if strict:
+            raise _Unreadable('set operator applied to a %s' % type(x).__name__)
+        return list(x)
+
+    def __and__(self, o):
+        o = self._elems(o, True)
+        return self._new([x for x in self.items if x in o])
+
+    __rand__ = __and__
+
+    def __or__(self, o):
+        return self._new(self.items + self._elems(o, True))
+
+    __ror__ = __or__
+
+    def __sub__(self, o):
+        o = self._elems(o, True)
+        return self._new([x for x in self.items if x not in o])
+
+    def intersection(self, *others):
+        out = self.items
+        for o in others:
+            o = self._elems(o, False)
+            out = [x for x in out if x in o]
+        return self._new(out)
+
+    def union(self, *others):
+        out = list(self.items)
+        for o in others:
+            out += self._elems(o, False)
+        return self._new(out)
+
+    def difference(self, *others):
+        out = self.items
+        for o in others:
+            o = self._elems(o, False)
+            out = [x for x in out if x not in o]
+        return self._new(out)
+
+    def issubset(self, o):
+        o = self._elems(o, False)
+        return all(x in o for x in self.items)
+
+    def pop(self):
+        if not self.items:
+            raise KeyError('pop from an empty set')
+        x = next(iter(self))
+        self.items.remove(x)
+        return x
+
+
+class _SelectionEval:
+    """Evaluates the body of the handler search on model values: real (analyser-made) exception classes built from
+    builtins, a registry dict {class: marker}, an instance of the raised class.  Only side-effect-free constructs with
+    plain Python semantics are read (see ev/ex); anything else is _Unreadable."""
+
+    import functools as _ft
+    import operator as _op
+
+    CALLABLES = {
+        'builtins.type': type, 'builtins.len': len, 'builtins.max': max, 'builtins.min': min, 'builtins.sorted': sorted,
+        'builtins.next': next, 'builtins.iter': iter, 'builtins.reversed': reversed, 'builtins.tuple': tuple, 'builtins.list': list,
+        'builtins.issubclass': issubclass, 'builtins.isinstance': isinstance, 'builtins.enumerate': enumerate, 'builtins.any': any,
+        'builtins.all': all, 'builtins.filter': filter, 'builtins.map': map, 'builtins.sum': sum, 'builtins.zip': zip,
+        'builtins.bool': bool, 'builtins.range': range, 'builtins.int': int,
+        'functools.partial': _ft.partial, 'functools.reduce': _ft.reduce,
+        'operator.itemgetter': _op.itemgetter, 'operator.contains': _op.contains, 'operator.getitem': _op.getitem,
+        'builtins.Exception': Exception, 'builtins.BaseException': BaseException, 'builtins.object': object,
+        'builtins.KeyError': KeyError, 'builtins.LookupError': LookupError, 'builtins.IndexError': IndexError,
+        'builtins.ValueError': ValueError, 'builtins.StopIteration': StopIteration, 'builtins.TypeError': TypeError,
+    }
+    ATTRS = (
+        (type, ('__mro__', 'mro', '__bases__', '__name__', '__qualname__', '__base__')),
+        (BaseException, ('__class__',)),
+        (tuple, ('index', 'count')),
+        (list, ('index', 'count')),
+        (dict, ('get', 'keys', 'values', 'items', '__getitem__', '__contains__')),
+        (_KEYS_VIEW, ('isdisjoint',)),
+        (_MSet, ('intersection', 'union', 'difference', 'issubset', 'pop')),
+    )
+    BINOPS = {ast.Add: _op.add, ast.Sub: _op.sub, ast.Mult: _op.mul, ast.FloorDiv: _op.floordiv, ast.Mod: _op.mod}
+    CMPOPS = {ast.Eq: _op.eq, ast.NotEq: _op.ne, ast.Lt: _op.lt, ast.LtE: _op.le, ast.Gt: _op.gt, ast.GtE: _op.ge,
+              ast.Is: _op.is_, ast.IsNot: _op.is_not}
+
+    def __init__(self, p, f: Func, exparam: str, registry: dict, ex, rank):
+        self.p, self.f, self.exparam, self.registry, self.exc, self.rank = p, f, exparam, registry, ex, rank
+        self.steps = 0
+
+    # -- plumbing
+    def native(self, node, fn, *a, **k):
+        """A builtin applied to model values: its documented exceptions are outcomes of the evaluated function, anything
+        else means the model (not the code) is at fault."""
+        try:
+            return fn(*a, **k)
+        except (_Unreadable, _ModelRaise, _Return, _Break, _Continue):
+            raise
+        except _MODEL_EXC as e:
+            raise _ModelRaise(type(e), node)
+        except Exception as e:  # noqa: BLE001
+            raise _Unreadable('%s: %s: %s' % (short(node), type(e).__name__, e))
+
+    def tick(self, node):
+        self.steps += 1
+        if self.steps > 20000:
+            raise _Unreadable('evaluation does not terminate near %s' % short(node))
+
+    def run(self):
+        env = {'self': self, self.exparam: self.exc}
+        extra = [a for a in self.f.params() if a not in env]
+        if extra:
+            raise _Unreadable('extra parameters %s' % ', '.join(extra))
+        try:
+            self.block(self.f.node.body, env)
+        except _Return as r:
+            return ('ret', r.value, r.node)
+        except _ModelRaise as r:
+            return ('raise', r.cls, r.node)
+        except (_Break, _Continue):
+            raise _Unreadable('break/continue outside a loop')
+        return ('ret', None, None)
+
+    # -- statements
+    def block(self, stmts, env):
+        for s in stmts:
+            self.ex(s, env)
+
+    def bind(self, t, v, env, node):
+        if isinstance(t, ast.Name):
+            env[t.id] = v
+        elif isinstance(t, (ast.Tuple, ast.List)) and not any(isinstance(x, ast.Starred) for x in t.elts):
+            vs = self.native(node, list, v)
+            if len(vs) != len(t.elts):
+                raise _ModelRaise(ValueError, node)
+            for x, y in zip(t.elts, vs):
+                self.bind(x, y, env, node)
+        else:
+            raise _Unreadable('store into %s (the search must not write anything but locals)' % short(t))
+
+    def ex(self, s, env):
+        self.tick(s)
+        if isinstance(s, ast.Expr):
+            if not isinstance(s.value, ast.Constant):
+                self.ev(s.value, env)
+        elif isinstance(s, ast.Pass):
+            pass
+        elif isinstance(s, ast.Assign):
+            v = self.ev(s.value, env)
+            for t in s.targets:
+                self.bind(t, v, env, s)
+        elif isinstance(s, ast.AnnAssign):
+            if s.value is not None:
+                self.bind(s.target, self.ev(s.value, env), env, s)
+        elif isinstance(s, ast.AugAssign) and isinstance(s.target, ast.Name):
+            cur = self.ev(ast.Name(id=s.target.id, ctx=ast.Load()), env)
+            env[s.target.id] = self.binop(s, s.op, cur, self.ev(s.value, env))
+        elif isinstance(s, ast.Return):
+            raise _Return(self.ev(s.value, env) if s.value is not None else None, s)
+        elif isinstance(s, ast.If):
+            self.block(s.body if self.truth(self.ev(s.test, env), s.test) else s.orelse, env)
+        elif isinstance(s, ast.For):
+            broke = False
+            for v in self.iterate(self.ev(s.iter, env), s.iter):
+                self.tick(s)
+                self.bind(s.target, v, env, s)
+                try:
+                    self.block(s.body, env)
+                except _Break:
+                    broke = True
+                    break
+                except _Continue:
+                    continue
+            if not broke:
+                self.block(s.orelse, env)
+        elif isinstance(s, ast.While):
+            broke = False
+            while self.truth(self.ev(s.test, env), s.test):
+                self.tick(s)
+                try:
+                    self.block(s.body, env)
+                except _Break:
+                    broke = True
+                    break
+                except _Continue:
+                    continue
+            if not broke:
+                self.block(s.orelse, env)
+        elif isinstance(s, ast.Break):
+            raise _Break()
+        elif isinstance(s, ast.Continue):
+            raise _Continue()
+        elif isinstance(s, ast.Try) and not s.finalbody:
+            try:
+                self.block(s.body, env)
+            except _ModelRaise as r:
+                for h in s.handlers:
+                    if h.type is None:
+                        caught = True
+                    else:
+                        types = h.type.elts if isinstance(h.type, ast.Tuple) else [h.type]
+                        cls = [self.ev(t, env) for t in types]
+                        if not all(isinstance(c, type) and issubclass(c, BaseException) for c in cls):
+                            raise _Unreadable('except clause %s' % short(h.type))
+                        caught = issubclass(r.cls, tuple(cls))
+                    if caught:
+                        if h.name:
+                            raise _Unreadable('the caught exception is bound to a name in %s' % short(h))
+                        self.block(h.body, env)
+                        break
+                else:
+                    raise
+            else:
+                self.block(s.orelse, env)
+        elif isinstance(s, ast.Raise) and s.exc is not None and s.cause is None:
+            e = s.exc.func if isinstance(s.exc, ast.Call) else s.exc
+            c = self.ev(e, env)
+            if not (isinstance(c, type) and issubclass(c, BaseException)):
+                raise _Unreadable('raise of %s' % short(s.exc))
+            raise _ModelRaise(c, s)
+        else:
+            raise _Unreadable('statement %s' % short(s))
+
+    # -- expressions
+    def truth(self, v, node):
+        return self.native(node, bool, v)
+
+    def iterate(self, v, node):
+        it = self.native(node, iter, v)
+        while True:
+            try:
+                yield next(it)
+            except StopIteration:
+                return
+            except _MODEL_EXC as e:
+                raise _ModelRaise(type(e), node)
+
+    def mset(self, items=()):
+        return _MSet(list(items), self.rank)
+
+    def binop(self, node, op, a, b):
+        setlike = (_MSet, set, frozenset, _KEYS_VIEW)
+        if isinstance(op, (ast.BitAnd, ast.BitOr, ast.Sub, ast.BitXor)) and (isinstance(a, setlike) or isinstance(b, setlike)):
+            view = isinstance(a, _KEYS_VIEW) or isinstance(b, _KEYS_VIEW)
+            if not view and not (isinstance(a, setlike) and isinstance(b, setlike)):
+                raise _Unreadable('%s: a set operator with a non-set operand raises TypeError' % short(node))
+            la, lb = list(a), list(b)
+            if isinstance(op, ast.BitAnd):
+                return self.mset(x for x in la if x in lb)
+            if isinstance(op, ast.BitOr):
+                return self.mset(la + lb)
+            if isinstance(op, ast.Sub):
+                return self.mset(x for x in la if x not in lb)
+            return self.mset([x for x in la if x not in lb] + [x for x in lb if x not in la])
+        fn = self.BINOPS.get(type(op))
+        if fn is None or not all(isinstance(x, (int, tuple, list)) for x in (a, b)):
+            raise _Unreadable('operator in %s' % short(node))
+        return self.native(node, fn, a, b)
+
+    def comprehension(self, node, elt, env):
+        gens = node.generators
+        if any(g.is_async for g in gens):
+            raise _Unreadable('async comprehension')
+
+        def rec(i, e):
+            if i == len(gens):
+                yield elt(e)
+                return
+            g = gens[i]
+            for v in self.iterate(self.ev(g.iter, e), g.iter):
+                self.tick(node)
+                e2 = dict(e)
+                self.bind(g.target, v, e2, node)
+                if all(self.truth(self.ev(c, e2), c) for c in g.ifs):
+                    yield from rec(i + 1, e2)
+
+        return rec(0, dict(env))
+
+    def ev(self, e, env):
+        self.tick(e)
+        if isinstance(e, ast.Constant):
+            return e.value
+        if isinstance(e, ast.Name):
+            if e.id in env:
+                return env[e.id]
+            return self.global_name(e)
+        if isinstance(e, ast.Attribute):
+            if is_self_attr(e, '_error_handlers'):
+                return self.registry
+            root = e
+            while isinstance(root, ast.Attribute):
+                root = root.value
+            if isinstance(root, ast.Name) and root.id not in env:
+                return self.global_name(e)
+            v = self.ev(e.value, env)
+            if v is self:
+                raise _Unreadable('read of self.%s' % e.attr)
+            for ty, names in self.ATTRS:
+                if isinstance(v, ty) and e.attr in names:
+                    return self.native(e, getattr, v, e.attr)
+            raise _Unreadable('attribute %s of a %s' % (e.attr, type(v).__name__))
+        if isinstance(e, ast.Call):
+            fn = self.ev(e.func, env)
+            if any(isinstance(a, ast.Starred) for a in e.args) or any(k.arg is None for k in e.keywords):
+                raise _Unreadable('star-arguments in %s' % short(e))
+            args = [self.ev(a, env) for a in e.args]
+            kw = {k.arg: self.ev(k.value, env) for k in e.keywords}
+            if not callable(fn) or fn is self:
+                raise _Unreadable('call of %s' % short(e.func))
+            return self.native(e, fn, *args, **kw)
+        if isinstance(e, ast.Subscript):
+            v = self.ev(e.value, env)
+            if isinstance(e.slice, ast.Slice):
+                s = e.slice
+                k = slice(*[None if x is None else self.ev(x, env) for x in (s.lower, s.upper, s.step)])
+            else:
+                k = self.ev(e.slice, env)
+            if not isinstance(v, (tuple, list, dict)):
+                raise _Unreadable('subscript of a %s' % type(v).__name__)
+            return self.native(e, self._op.getitem, v, k)
+        if isinstance(e, ast.Compare):
+            left = self.ev(e.left, env)
+            for op, r in zip(e.ops, e.comparators):
+                right = self.ev(r, env)
+                if isinstance(op, (ast.In, ast.NotIn)):
+                    if not isinstance(right, (tuple, list, dict, _MSet, _KEYS_VIEW)):
+                        raise _Unreadable('membership in a %s' % type(right).__name__)
+                    res = self.native(e, lambda a, b: a in b, left, right) != isinstance(op, ast.NotIn)
+                else:
+                    if isinstance(op, (ast.Lt, ast.LtE, ast.Gt, ast.GtE)) and not all(isinstance(x, int) for x in (left, right)):
+                        raise _Unreadable('ordering comparison %s' % short(e))
+                    res = self.native(e, self.CMPOPS[type(op)], left, right)
+                if not res:
+                    return False
+                left = right
+            return True
+        if isinstance(e, ast.BoolOp):
+            v = None
+            for x in e.values:
+                v = self.ev(x, env)
+                t = self.truth(v, x)
+                if t != isinstance(e.op, ast.And):
+                    return v
+            return v
+        if isinstance(e, ast.UnaryOp):
+            v = self.ev(e.operand, env)
+            if isinstance(e.op, ast.Not):
+                return not self.truth(v, e.operand)
+            if isinstance(e.op, ast.USub) and isinstance(v, int):
+                return -v
+            raise _Unreadable('operator in %s' % short(e))
+        if isinstance(e, ast.BinOp):
+            return self.binop(e, e.op, self.ev(e.left, env), self.ev(e.right, env))
+        if isinstance(e, ast.IfExp):
+            return self.ev(e.body if self.truth(self.ev(e.test, env), e.test) else e.orelse, env)
+        if isinstance(e, ast.NamedExpr) and isinstance(e.target, ast.Name):
+            env[e.target.id] = v = self.ev(e.value, env)
+            return v
+        if isinstance(e, ast.Lambda):
+            a = e.args
+            if a.vararg or a.kwarg or a.kwonlyargs or a.defaults or a.posonlyargs:
+                raise _Unreadable('lambda signature %s' % short(e))
+            names = [x.arg for x in a.args]
+
+            def fn(*vals, _names=names, _body=e.body, _env=env):
+                if len(vals) != len(_names):
+                    raise _Unreadable('lambda called with %d arguments' % len(vals))
+                e2 = dict(_env)
+                e2.update(zip(_names, vals))
+                return self.ev(_body, e2)
+
+            return fn
+        if isinstance(e, ast.GeneratorExp):
+            return self.comprehension(e, lambda e2: self.ev(e.elt, e2), env)
+        if isinstance(e, ast.ListComp):
+            return list(self.comprehension(e, lambda e2: self.ev(e.elt, e2), env))
+        if isinstance(e, ast.SetComp):
+            return self.mset(self.comprehension(e, lambda e2: self.ev(e.elt, e2), env))
+        if isinstance(e, ast.DictComp):
+            return dict(self.comprehension(e, lambda e2: (self.ev(e.key, e2), self.ev(e.value, e2)), env))
+        if isinstance(e, (ast.Tuple, ast.List)) and not any(isinstance(x, ast.Starred) for x in e.elts):
+            vs = [self.ev(x, env) for x in e.elts]
+            return tuple(vs) if isinstance(e, ast.Tuple) else vs
+        if isinstance(e, ast.Set) and not any(isinstance(x, ast.Starred) for x in e.elts):
+            return self.mset(self.ev(x, env) for x in e.elts)
+        raise _Unreadable('expression %s' % short(e))
+
+    def global_name(self, e):
+        q = self.p.resolve_expr(self.f.module, e, self.f)
+        if q in ('builtins.set', 'builtins.frozenset'):
+            return lambda items=(): self.mset(_MSet._elems(items, False))
+        fn = self.CALLABLES.get(q)
+        if fn is None:
+            raise _Unreadable('name %s (%s) has no model value' % (short(e), q))
+        return fn
+
+
+def _selection_domain():
+    """Model hierarchies (built from builtins by the analyser), each: (text, raised classes, registrable classes)."""
+    def mk(name, *bases):
+        return type(name, bases, {})
+
+    A = mk('A', Exception)
+    B = mk('B', Exception)
+    C = mk('C', B)
+    D = mk('D', A, C)
+    U = mk('U', C)
+    P = mk('P', Exception)
+    Q = mk('Q', Exception)
+    R = mk('R', P, Q)
+    L1 = mk('L1', Exception)
+    L2 = mk('L2', L1)
+    L3 = mk('L3', L2)
+    return [
+        ('class A(Exception); class B(Exception); class C(B); class D(A, C); class U(C)', [D, C, A], [D, A, C, B, U]),
+        ('class P(Exception); class Q(Exception); class R(P, Q)', [R, Q], [R, P, Q]),
+        ('class L1(Exception); class L2(L1); class L3(L2)', [L3, L2], [L3, L2, L1]),
+    ]
+
+
+def _find_handler_model(run, f: Func, tags: str):
+    """R2, read semantically: for every model hierarchy (multiple inheritance with a shallow base before a deeper one,
+    equal-depth bases, a plain chain), every set of registered classes (the default `Exception` handler always among
+    them, as App.__init__ guarantees), both registration orders and both iteration orders of any set the search builds,
+    the search returns the handler of the FIRST class along type(ex).__mro__ that is registered.
+    Witness: class Retryable(Exception); class DbError(StorageError); class Timeout(Retryable, DbError), handlers for
+    Retryable and DbError, raise Timeout(): a search keyed by MRO length / depth / set order picks DbError's handler."""
+    import itertools
+    p = run.project
+    exparam = param_at(f, 1, 'the raised exception')
+    n_cases = 0
+    cex = None
+    unstable = None
+    for text, raised, cands in _selection_domain():
+        index = {c: i for i, c in enumerate(cands + [Exception])}
+        policies = [lambda c, k=k: k * index.get(c, 99) if isinstance(c, type) else 0 for k in (1, -1)]
+        subsets = [s for n in range(len(cands) + 1) for s in itertools.combinations(cands, n)]
+        for sub in subsets:
+            for raise_cls in raised:
+                want_cls = next(c for c in raise_cls.__mro__ if c in sub or c is Exception)
+                seen = set()
+                for order in (list(sub), list(reversed(sub))):
+                    registry = {c: 'handler registered for %s' % c.__name__ for c in [Exception] + order}
+                    for rank in policies:
+                        n_cases += 1
+                        ev = _SelectionEval(p, f, exparam, dict(registry), raise_cls(), rank)
+                        try:
+                            kind, val, node = ev.run()
+                        except _Unreadable as e:
+                            raise UnknownIdiom('%s: handler search is not readable: %s' % (f.qual, e))
+                        except (AnchorError, UnknownIdiom):
+                            raise
+                        except Exception as e:  # noqa: BLE001 - the model, not the code, is at fault
+                            raise UnknownIdiom('%s: handler search could not be evaluated on the model: %s: %s' % (f.qual, type(e).__name__, e))
+                        got = val if kind == 'ret' else 'raises %s' % val.__name__
+                        seen.add(str(got))
+                        if got != registry[want_cls] and cex is None:
+                            cex = (text, sub, raise_cls, want_cls, got, node)
+                if len(seen) > 1 and unstable is None:
+                    unstable = (text, sub, raise_cls, sorted(seen))
+        if cex is not None:
+            break
+    if cex is None:
+        run.ok('%s: the search returns the handler of the first registered class along type(ex).__mro__ '
+               '(evaluated on %d model cases: multiple inheritance, equal-depth bases, registration and set orders)' % (tags, n_cases),
+               f.loc(), '%s: first registered class in MRO order' % f.name)
+        return
+    text, sub, raise_cls, want_cls, got, node = cex
+    wit = ['model: %s' % text,
+           'handlers registered for: %s' % ', '.join(c.__name__ for c in (Exception,) + tuple(sub)),
+           'raise %s()  (MRO %s)' % (raise_cls.__name__, ' > '.join(c.__name__ for c in raise_cls.__mro__[:-2])),
+           'expected: handler registered for %s' % want_cls.__name__, 'selected: %s' % (got,)]
+    if unstable is not None:
+        wit.append('the answer depends on set / registration order (handlers for %s, raise %s()): %s' % (
+            ', '.join(c.__name__ for c in unstable[1]), unstable[2].__name__, ' | '.join(unstable[3])))
+    run.fail('%s: the search returns the handler of the first registered class along type(ex).__mro__ (not the class with the '
+             'longest lineage / an arbitrary member of a set)' % tags, f, node if node is not None else '%s: falls off the end' % f.name,
+             witness=wit,
+             runtime_witness='%s; handlers for %s; raise %s(): %s instead of the handler of %s' % (
+                 text, ', '.join(c.__name__ for c in sub), raise_cls.__name__, got, want_cls.__name__))
+
+
+def _find_handler_any(run, f: Func, tags: str):
+    """The loop reader first (it names the offending construct); a search written any other way (next() over a
+    generator, min() keyed by mro.index, set intersection + max(), ...) is evaluated on the model domain."""
+    loops = [n for n in walk_self(f.node) if isinstance(n, (ast.For, ast.AsyncFor))
+             and any((isinstance(x, ast.Attribute) and x.attr in ('__mro__', 'mro')) for x in walk_self(n.iter))]
+    if len(loops) == 1:
+        try:
+            return _find_handler(run, f, tags)
+        except UnknownIdiom as first:
+            try:
+                return _find_handler_model(run, f, tags)
+            except UnknownIdiom as second:
+                raise UnknownIdiom('%s; and %s' % (first, second))
+    return _find_handler_model(run, f, tags)
+
+
 def _registration(run, f: Func, tag: str):
     p = run.project
     cfg = cfg_of(f, p)
@@ -435,7 +996,7 @@ def r2_selection(run):
         f = effective_method(p, app, '_find_error_handler')
         seen.setdefault(f.qual, (f, []))[1].append(tag)
     for f, tags in seen.values():
-        _find_handler(run, f, '/'.join(tags))
+        _find_handler_any(run, f, '/'.join(tags))
     for app, _q, tag in APPS:
         f = p.func(app + '.add_error_handler')
         _registration(run, f, tag)
@@ -770,6 +1331,28 @@ def _self_attrs(e) -> frozenset:
     return frozenset(x.attr for x in ast.walk(e) if isinstance(x, ast.Attribute) and is_name(x.value, 'self'))
 
 
+def _self_attrs_at(p, f: Func, e) -> frozenset:
+    """The `self.<attr>` reads an expression is made from, looking through locals (`title = self.title`) by their
+    reaching definitions at the expression."""
+    from .c15_helpers import reaching
+    rd = reaching(p, f)
+    out: Set[str] = set()
+    seen: Set[int] = set()
+
+    def visit(x, nid, depth):
+        for y in ast.walk(x):
+            if isinstance(y, ast.Attribute) and is_name(y.value, 'self'):
+                out.add(y.attr)
+            elif isinstance(y, ast.Name) and isinstance(y.ctx, ast.Load) and y.id != 'self' and nid is not None and depth < 4:
+                for d in rd.at(nid, y.id):
+                    if d.kind == 'assign' and d.idx not in seen:
+                        seen.add(d.idx)
+                        visit(d.value, d.node, depth + 1)
+
+    visit(e, rd.cfg_node(e), 0)
+    return frozenset(out)
+
+
 def _expand_field_loop(p, f: Func, cfg, ix, store, keyvar):
     """Fields written by `obj[<keyvar>] = <value>` inside `for <keyvar> in (<str consts>)`
     where <value> is getattr(self, <keyvar>) (directly or through one local)."""
@@ -844,7 +1427,7 @@ def _dict_fields(run, f: Func):
                     if not (isinstance(k, ast.Constant) and isinstance(k.value, str)):
                         raise UnknownIdiom('%s: field key %s' % (f.qual, short(k)))
                     nid = single(cfg.nodes_for(n), 'field store node', f.qual)
-                    fields[k.value] = (_guard_set(ix, nid), _self_attrs(n.value), n)
+                    fields[k.value] = (_guard_set(ix, nid), _self_attrs_at(p, f, n.value), n)
     if not fields:
         raise AnchorError('%s: no field stores into %s' % (f.qual, obj))
     return fields
@@ -879,18 +1462,18 @@ def _xml_fields(run, f: Func):
         if isinstance(stmt, ast.Assign) and len(stmt.targets) == 1:
             t = stmt.targets[0]
             if isinstance(t, ast.Attribute) and t.attr == 'text' and t.value is c:
-                attrs = _self_attrs(stmt.value)
+                attrs = _self_attrs_at(p, f, stmt.value)
             elif isinstance(t, ast.Name) and stmt.value is c:
                 inner = subs(t.id)
                 acc = set()
                 for a2 in walk_self(f.node):
                     if isinstance(a2, ast.Assign) and any(attr_of(t2, t.id, ('text',)) for t2 in a2.targets):
-                        acc |= set(_self_attrs(a2.value))
+                        acc |= set(_self_attrs_at(p, f, a2.value))
                 for ic in inner:
                     inid = ix.node_of(ic, 'SubElement call')
                     ist = cfg.node(inid).ast
                     if isinstance(ist, ast.Assign):
-                        acc |= set(_self_attrs(ist.value))
+                        acc |= set(_self_attrs_at(p, f, ist.value))
                 attrs = frozenset(acc)
         if attrs is None:
             raise UnknownIdiom('%s: how element %r gets its content' % (f.qual, k.value))
@@ -1431,6 +2014,299 @@ def _negotiation_rule(run, ser: Func):
                       runtime_witness='an Accept header the negotiation answers with one type is served another one')
 
 
+# ---------------------------------------------------------------------------
+# R4 (g) the text put into the error document is the field value itself
+# ---------------------------------------------------------------------------
+
+from .c15_helpers import Origin, Provenance  # noqa: E402
+
+# XML 1.0 (fifth edition) production [2] Char: the code points a document can carry at all
+XML_CHAR_RANGES = ((0x9, 0xA), (0xD, 0xD), (0x20, 0xD7FF), (0xE000, 0xFFFD), (0x10000, 0x10FFFF))
+# a JSON document (and the dict handed to a custom serializer) carries every Unicode scalar value
+ANY_CHAR_RANGES = ((0x0, 0xD7FF), (0xE000, 0x10FFFF))
+CHAR_PROBES = ('\t', '\n', '\r', ' ', '\ud7ff', '\ue000', '\ufffd', '\U00010000', '\U0001f600', '\U0010ffff')
+_ALPHABETS: Dict[tuple, str] = {}
+
+
+def _alphabet(ranges) -> str:
+    if ranges not in _ALPHABETS:
+        _ALPHABETS[ranges] = ''.join(''.join(map(chr, range(lo, hi + 1))) for lo, hi in ranges)
+    return _ALPHABETS[ranges]
+
+
+def _carried(ranges, ch: str) -> bool:
+    return any(lo <= ord(ch) <= hi for lo, hi in ranges)
+
+
+def _is_char_class(pattern: str, flags: int) -> bool:
+    """The pattern is one character class / literal (optionally grouped, alternated, repeated at least once): it matches
+    some text iff it matches one of that text's characters."""
+    try:
+        from re import _parser as sre            # Python >= 3.11
+    except ImportError:                           # pragma: no cover
+        import sre_parse as sre
+    try:
+        from re import _constants as C
+    except ImportError:                           # pragma: no cover
+        import sre_constants as C
+    repeats = tuple(x for x in (getattr(C, n, None) for n in ('MAX_REPEAT', 'MIN_REPEAT', 'POSSESSIVE_REPEAT')) if x is not None)
+
+    def one(items) -> bool:
+        items = list(items)
+        if len(items) != 1:
+            return False
+        op, av = items[0]
+        if op in (C.IN, C.LITERAL, C.NOT_LITERAL, C.ANY):
+            return True
+        if op in repeats:
+            return av[0] >= 1 and one(av[2])
+        if op is C.SUBPATTERN:
+            return one(av[-1])
+        if op is C.BRANCH:
+            return all(one(alt) for alt in av[1])
+        return False
+
+    try:
+        return one(sre.parse(pattern, flags))
+    except Exception:  # noqa: BLE001
+        return False
+
+
+class _FieldText(Provenance):
+    """Provenance of a text relative to the error's own fields: `self.<field>`, `getattr(self, <name>)` and a component
+    `self.<field>[<key>]` of a structured field (link) are the roots.  On top of the C15 tables it READS the three
+    filters whose effect depends on constants: `<compiled regex>.sub(...)` / `re.sub(...)` (also through
+    functools.partial), `.replace(<const>, <const>)` and `.translate(<constant table>)` - each is the identity on every
+    text the document format can carry iff it touches none of the format's characters."""
+
+    def __init__(self, p, f: Func, ranges, doc: str):
+        Provenance.__init__(self, p, f, 'self')
+        self.ranges, self.doc = ranges, doc
+
+    # -- roots
+    def _is_field(self, e) -> bool:
+        if isinstance(e, ast.Attribute) and is_name(e.value, 'self'):
+            return True
+        return (isinstance(e, ast.Call) and self._q(e.func) == 'builtins.getattr' and len(e.args) >= 2 and is_name(e.args[0], 'self'))
+
+    def classify(self, e, nid: int) -> Origin:
+        if self._is_field(e):
+            return Origin(True)
+        if isinstance(e, ast.Subscript) and not isinstance(e.slice, ast.Slice):
+            # `<field>[<key>]`: a component of a structured field (link['href']); an integer index picks a character
+            k = e.slice
+            if isinstance(k, ast.UnaryOp):
+                k = k.operand
+            if not (isinstance(k, ast.Constant) and isinstance(k.value, int)):
+                base = self.classify(e.value, nid)
+                if base.identical:
+                    return base
+        # spellings of str(x)
+        if isinstance(e, ast.JoinedStr) and len(e.values) == 1 and isinstance(e.values[0], ast.FormattedValue) \
+                and e.values[0].conversion in (-1, 115) and e.values[0].format_spec is None:
+            return self.classify(e.values[0].value, nid)
+        if isinstance(e, ast.BinOp) and isinstance(e.op, ast.Mod) and isinstance(e.left, ast.Constant) and e.left.value == '%s' \
+                and not isinstance(e.right, (ast.Tuple, ast.Dict)):
+            return self.classify(e.right, nid)
+        if isinstance(e, ast.Call) and isinstance(e.func, ast.Attribute) and e.func.attr == 'format' and isinstance(e.func.value, ast.Constant) \
+                and e.func.value.value in ('{}', '{0}', '{!s}', '{0!s}') and len(e.args) == 1 and not e.keywords and not isinstance(e.args[0], ast.Starred):
+            return self.classify(e.args[0], nid)
+        # `<field> or ''`: the field itself for every str (None and '' both give an empty element)
+        if isinstance(e, ast.BoolOp) and isinstance(e.op, ast.Or) and len(e.values) == 2 and isinstance(e.values[1], ast.Constant) \
+                and e.values[1].value in ('', None):
+            return self.classify(e.values[0], nid)
+        return Provenance.classify(self, e, nid)
+
+    # -- constants behind names
+    def _value_of(self, e, nid: int, module=None, depth=0):
+        """Follow a local with one reaching definition / a module constant to the expression that defines it."""
+        module = module or self.f.module
+        if depth > 4 or not isinstance(e, (ast.Name, ast.Attribute)):
+            return e, module
+        if isinstance(e, ast.Name) and module is self.f.module:
+            ds = self.rd.at(nid, e.id) if nid is not None else []
+            if ds:
+                if len(ds) == 1 and ds[0].kind == 'assign':
+                    return self._value_of(ds[0].value, ds[0].node, module, depth + 1)
+                return e, module
+        q = self.p.resolve_expr(module, e, self.f if module is self.f.module else None)
+        if q:
+            head, _, tail = q.rpartition('.')
+            m = self.p.modules.get(head)
+            if m is not None and tail in m.consts:
+                return self._value_of(m.consts[tail], None, m, depth + 1)
+        return e, module
+
+    def _const(self, e, nid, what: str, c):
+        v, m = self._value_of(e, nid)
+        val = self.p.fold(m, v, None, self.f if m is self.f.module else None)
+        if val is UNKNOWN:
+            raise UnknownIdiom('%s: %s of %s is not a constant' % (self.f.qual, what, short(c)))
+        return val
+
+    def _flags(self, e, module) -> int:
+        if isinstance(e, ast.BinOp) and isinstance(e.op, ast.BitOr):
+            return self._flags(e.left, module) | self._flags(e.right, module)
+        if isinstance(e, ast.Constant) and isinstance(e.value, int):
+            return e.value
+        q = self.p.resolve_expr(module, e, None) or ''
+        v = getattr(re, q[3:], None) if q.startswith('re.') else None
+        if not isinstance(v, int):
+            raise UnknownIdiom('%s: regex flags %s' % (self.f.qual, short(e)))
+        return int(v)
+
+    def _compiled(self, e, nid):
+        """-> (pattern text, flags) when e denotes `re.compile(<constant>[, flags])`."""
+        v, m = self._value_of(e, nid)
+        if not (isinstance(v, ast.Call) and (self.p.resolve_expr(m, v.func, None) == 're.compile') and v.args):
+            return None
+        fl = [a for a in v.args[1:2]] + [k.value for k in v.keywords if k.arg == 'flags']
+        if len(v.args) > 2 or any(k.arg != 'flags' for k in v.keywords):
+            raise UnknownIdiom('%s: %s' % (self.f.qual, short(v)))
+        pat = self.p.fold(m, v.args[0])
+        if not isinstance(pat, str):
+            raise UnknownIdiom('%s: pattern of %s is not a constant str' % (self.f.qual, short(v)))
+        return pat, sum(self._flags(x, m) for x in fl[:1])
+
+    # -- filters
+    def _touched(self, pattern: str, flags: int, c) -> Optional[str]:
+        """A character of the document alphabet that a match of the pattern contains, None when provably none."""
+        try:
+            rx = re.compile(pattern, flags)
+        except re.error as e:
+            raise UnknownIdiom('%s: pattern %r does not compile: %s' % (self.f.qual, pattern, e))
+        for ch in CHAR_PROBES:
+            m = rx.search(ch) if _carried(self.ranges, ch) else None
+            if m is not None and m.group():
+                return ch
+        if rx.fullmatch('') is not None:
+            raise UnknownIdiom('%s: pattern %r of %s also matches the empty string' % (self.f.qual, pattern, short(c)))
+        m = rx.search(_alphabet(self.ranges))
+        if m is not None:
+            return m.group()[0]
+        if not _is_char_class(pattern, flags):
+            raise UnknownIdiom('%s: pattern %r of %s is not a single character class' % (self.f.qual, pattern, short(c)))
+        return None
+
+    def _regex_sub(self, c: ast.Call, nid: int) -> Optional[Origin]:
+        fn, args = c.func, list(c.args)
+        if isinstance(fn, ast.Name):
+            v, m = self._value_of(fn, nid)
+            if isinstance(v, ast.Call) and m is self.f.module and self._q(v.func) == 'functools.partial' and v.args:
+                if v.keywords or any(isinstance(a, ast.Starred) for a in v.args):
+                    raise UnknownIdiom('%s: %s' % (self.f.qual, short(v)))
+                fn, args = v.args[0], list(v.args[1:]) + args
+        if not (isinstance(fn, ast.Attribute) and fn.attr == 'sub'):
+            return None
+        if self._q(fn) == 're.sub':
+            if len(args) != 3 or c.keywords:
+                raise UnknownIdiom('%s: arguments of %s' % (self.f.qual, short(c)))
+            pat = self._const(args[0], nid, 'pattern', c)
+            if not isinstance(pat, str):
+                raise UnknownIdiom('%s: pattern of %s' % (self.f.qual, short(c)))
+            rx, repl, subject = (pat, 0), args[1], args[2]
+        else:
+            rx = self._compiled(fn.value, nid)
+            if rx is None:
+                return None
+            if len(args) != 2 or c.keywords:
+                raise UnknownIdiom('%s: arguments of %s' % (self.f.qual, short(c)))
+            repl, subject = args
+        origin = self.classify(subject, nid)
+        if not origin.derived:
+            return Origin()
+        r = self._const(repl, nid, 'replacement', c)
+        if not isinstance(r, str) or '\\' in r:
+            raise UnknownIdiom('%s: replacement of %s' % (self.f.qual, short(c)))
+        ch = self._touched(rx[0], rx[1], c)
+        if ch is None:
+            return origin
+        return origin.step('rewrite', c, 'the pattern %s matches U+%04X, a character %s documents carry: it is %s' % (
+            ascii(rx[0]), ord(ch), self.doc, 'deleted' if r == '' else 'replaced by %r' % r))
+
+    def _text_method(self, c: ast.Call, nid: int) -> Optional[Origin]:
+        fn = c.func
+        if not (isinstance(fn, ast.Attribute) and fn.attr in ('replace', 'translate') and self._q(fn) is None):
+            return None
+        recv = self.classify(fn.value, nid)
+        if not recv.derived:
+            return None
+        if c.keywords or any(isinstance(a, ast.Starred) for a in c.args):
+            raise UnknownIdiom('%s: arguments of %s' % (self.f.qual, short(c)))
+        if fn.attr == 'replace':
+            if len(c.args) != 2:
+                raise UnknownIdiom('%s: arguments of %s' % (self.f.qual, short(c)))
+            old, new = (self._const(a, nid, 'argument', c) for a in c.args)
+            if not (isinstance(old, str) and isinstance(new, str)):
+                raise UnknownIdiom('%s: arguments of %s' % (self.f.qual, short(c)))
+            if old == new or (old and not all(_carried(self.ranges, ch) for ch in old)):
+                return recv         # no text the document can carry contains `old`
+            return recv.step('rewrite', c, '%s occurs in texts %s documents carry' % (ascii(old), self.doc))
+        if len(c.args) != 1:
+            raise UnknownIdiom('%s: arguments of %s' % (self.f.qual, short(c)))
+        v, m = self._value_of(c.args[0], nid)
+        table = None
+        if isinstance(v, ast.Call) and self.p.resolve_expr(m, v.func, None) in ('builtins.str.maketrans',) and not v.keywords:
+            vals = [self.p.fold(m, a) for a in v.args]
+            if all(isinstance(x, (str, dict)) for x in vals):
+                try:
+                    table = str.maketrans(*vals)
+                except (TypeError, ValueError):
+                    table = None
+        else:
+            t = self.p.fold(m, v)
+            if isinstance(t, dict) and all(isinstance(k, int) or (isinstance(k, str) and len(k) == 1) for k in t):
+                table = {(k if isinstance(k, int) else ord(k)): x for k, x in t.items()}
+        if table is None:
+            raise UnknownIdiom('%s: translation table of %s is not a readable constant' % (self.f.qual, short(c)))
+        hit = sorted(k for k, x in table.items() if 0 <= k <= 0x10FFFF and _carried(self.ranges, chr(k)) and x != k and x != chr(k))
+        if not hit:
+            return recv
+        return recv.step('rewrite', c, 'the table maps U+%04X, a character %s documents carry, to %r' % (hit[0], self.doc, table[hit[0]]))
+
+    def _call(self, c: ast.Call, nid: int) -> Origin:
+        for reader in (self._regex_sub, self._text_method):
+            r = reader(c, nid)
+            if r is not None:
+                return r
+        return Provenance._call(self, c, nid)
+
+
+def _document_text_rule(run, f: Func, doc: str):
+    """R4 (g): the text stored into each element of the XML error document (each value of the dict JSON is made from) is
+    the corresponding field value itself, or its str(): no substitution, filtering, truncation, case or whitespace
+    change on the way - except one that provably touches no character the document format can carry (for XML: outside
+    production [2] Char).  Witness: HTTPError(title='Payment failed \\U0001F4B3') negotiated as XML with a filter
+    [^\\t\\n\\r\\x20-\\ud7ff\\ue000-\\ufffd]: the client reads 'Payment failed ' while JSON keeps the emoji."""
+    p = run.project
+    ranges = XML_CHAR_RANGES if doc == 'XML' else ANY_CHAR_RANGES
+    prov = _FieldText(p, f, ranges, doc)
+    sinks = []
+    for n in walk_self(f.node):
+        if not isinstance(n, ast.Assign):
+            continue
+        for t in n.targets:
+            if doc == 'XML' and isinstance(t, ast.Attribute) and t.attr in ('text', 'tail') and not is_name(t.value, 'self'):
+                sinks.append(n)
+            elif doc == 'JSON' and isinstance(t, ast.Subscript) and isinstance(t.value, ast.Name) and t.value.id != 'self':
+                sinks.append(n)
+    n_fields = 0
+    for n in sinks:
+        nid = prov.rd.cfg_node(n.value)
+        if nid is None:
+            continue
+        origin = prov.classify(n.value, nid)
+        if not origin.derived:
+            continue            # a constant / unrelated text: the sibling field-source comparison judges it
+        n_fields += 1
+        run.check(not origin.xforms, 'the %s error document carries each field value itself (only the serializer\'s own escaping '
+                  'may change it)' % doc, f, origin.xforms[0][1] if origin.xforms else n, where=f.loc(n), witness=origin.describe() or None,
+                  runtime_witness='an HTTPError whose title/description/link text contains the affected characters (e.g. an emoji, '
+                                  'U+1F4B3): the %s body no longer says what the error says (and what the other format says)' % doc)
+    if not n_fields:
+        raise AnchorError('%s: no store of a field value into the %s document found' % (f.qual, doc))
+
+
 def r4_rendering(run):
     p = run.project
     _anchors(run.project)
@@ -1483,6 +2359,9 @@ def r4_rendering(run):
                   where=xf.loc(x[k][2]), runtime_witness='an HTTPError whose %s is falsy but not None' % k)
         run.check(d[k][1] == x[k][1] and bool(d[k][1]), 'field %r is taken from the same attribute in to_dict and _to_xml' % k, xf,
                   'field %r source' % k, where=xf.loc(x[k][2]))
+    # (g) what goes into the document is the field value itself
+    _document_text_rule(run, xf, 'XML')
+    _document_text_rule(run, p.func(HTTP_ERROR + '.to_dict'), 'JSON')
     # (d) status tables
     _status_tables(run)
     # (e) constructor wiring
